@@ -10,6 +10,7 @@ mod comps;
 #[cfg(has_verif_sched)]
 mod conc;
 mod dispatch;
+mod joins;
 mod world_exec;
 
 use std::io::{BufRead, Write};
